@@ -79,7 +79,6 @@ theorem compressedSimZ_of (sd : ByteArray) (hCmd : CommandsSimZ sd) : Compressed
     obtain ⟨e1, s2, hrun, hne, hd, hout⟩ := hpc
     rw [hrun]
     refine ⟨fun he => (by rw [fin_err] at he; cases he), ?_⟩
-    intro _
     obtain ⟨X, T, hX⟩ := trace_error sd e1 s2 ws st2.out.toList del (by rw [hd, hout]; exact hR.win)
     exact ⟨X, e1, T, hne, by rw [hX]; exact Agree.refl _⟩
   · rw [hh] at hpc
@@ -104,7 +103,7 @@ theorem compressedSimZ_of (sd : ByteArray) (hCmd : CommandsSimZ sd) : Compressed
           d1 := ds.d1, d2 := ds.d2, d3 := ds.d3, d4 := ds.d4 } st2 := by
       unfold Compress.Proofs.BrCut.DistInv
       rw [hout2]; exact hRZ.dinv
-    have hcmd := hCmd ws _ st2 ds del h _ hR2' hstep hcr' (by show s2.blkLen = _; rw [hbl2, hbl]) hm1 hm2 hc1 hc2 hc3
+    have hcmd := hCmd ws _ st2 ds del h _ hR2' hstep hcr' (by show s2.blkLen = _; rw [hbl2, hbl]) hm1
       hRZ.ws2 (by show Zeros s2.dict; rw [hdict2]; exact hRZ.zeros) hdinv
     simp only [Dec_bind_apply]
     have hrem : remainingBits st2 = (.ok st2.bits.length, st2) := rfl
@@ -115,8 +114,7 @@ theorem compressedSimZ_of (sd : ByteArray) (hCmd : CommandsSimZ sd) : Compressed
           d1 := ds.d1, d2 := ds.d2, d3 := ds.d3, d4 := ds.d4 } st2 with ⟨e | c', st'⟩
     · rw [hrc] at hcmd
       simp only at hcmd ⊢
-      intro hcap
-      exact hcmd (by omega)
+      exact hcmd
     · rw [hrc] at hcmd
       simp only at hcmd ⊢
       obtain ⟨X, s', hrun', hR', hs', hl', hb', hz', hd'⟩ := hcmd
@@ -129,7 +127,7 @@ theorem compressedSimZ (sd : ByteArray) (hsd : sd.size = 122784) : CompressedSim
 /-- the schedule-free form of the refinement: the trace of the reader model on `bytes`. -/
 theorem trace_of_compressed (sd : ByteArray) (hC : CompressedSimZ sd) (bytes : List UInt8) :
     (∀ n, (decode sd bytes).verdict = .ok n → Trace sd (init bytes) (decode sd bytes).out.toList .eof) ∧
-    ((∀ n, (decode sd bytes).verdict ≠ .ok n) → 8 * bytes.length + (decode sd bytes).out.size < 2 ^ 24 →
+    ((∀ n, (decode sd bytes).verdict ≠ .ok n) →
       ∃ X e, Trace sd (init bytes) X e ∧ e ≠ .eof ∧ Agree X (decode sd bytes).out.toList) := by
   have hs := stream_sim sd winBitsSim hC bytes
   unfold decode decodeBits
@@ -137,12 +135,12 @@ theorem trace_of_compressed (sd : ByteArray) (hC : CompressedSimZ sd) (bytes : L
   · rw [hr] at hs
     cases e with
     | corrupt =>
-      refine ⟨fun n h => (by cases h), fun _ hcap => ?_⟩
-      obtain ⟨X, e, T, he, ha⟩ := hs hcap
+      refine ⟨fun n h => (by cases h), fun _ => ?_⟩
+      obtain ⟨X, e, T, he, ha⟩ := hs
       exact ⟨X, e, T, he, by simpa using ha⟩
     | unexpectedEOF =>
-      refine ⟨fun n h => (by cases h), fun _ hcap => ?_⟩
-      obtain ⟨X, e, T, he, ha⟩ := hs hcap
+      refine ⟨fun n h => (by cases h), fun _ => ?_⟩
+      obtain ⟨X, e, T, he, ha⟩ := hs
       exact ⟨X, e, T, he, by simpa using ha⟩
   · rw [hr] at hs
     obtain ⟨X, T, hX⟩ := hs
@@ -154,13 +152,13 @@ theorem trace_of_compressed (sd : ByteArray) (hC : CompressedSimZ sd) (bytes : L
 theorem refines_of_trace (sd : ByteArray) (bytes : List UInt8) (sched : List Nat)
     (hs : ∀ n, sched.getLast? = some n → 0 < n)
     (h1 : ∀ n, (decode sd bytes).verdict = .ok n → Trace sd (init bytes) (decode sd bytes).out.toList .eof)
-    (h2 : (∀ n, (decode sd bytes).verdict ≠ .ok n) → 8 * bytes.length + (decode sd bytes).out.size < 2 ^ 24 →
+    (h2 : (∀ n, (decode sd bytes).verdict ≠ .ok n) →
       ∃ X e, Trace sd (init bytes) X e ∧ e ≠ .eof ∧ Agree X (decode sd bytes).out.toList) :
     (∀ n, (decode sd bytes).verdict = .ok n →
       (∀ fuel, (decode sd bytes).out.size + sched.length + 2 ≤ fuel →
         (run sd fuel bytes sched).1 = (decode sd bytes).out.toList ∧ (run sd fuel bytes sched).2.1 = some .eof) ∧
       (∀ fuel, (run sd fuel bytes sched).1 <+: (decode sd bytes).out.toList)) ∧
-    ((∀ n, (decode sd bytes).verdict ≠ .ok n) → 8 * bytes.length + (decode sd bytes).out.size < 2 ^ 24 →
+    ((∀ n, (decode sd bytes).verdict ≠ .ok n) →
       ∃ X e, e ≠ .eof ∧ Agree X (decode sd bytes).out.toList ∧
         (∀ fuel, X.length + sched.length + 2 ≤ fuel →
           (run sd fuel bytes sched).1 = X ∧ (run sd fuel bytes sched).2.1 = some e) ∧
@@ -171,15 +169,15 @@ theorem refines_of_trace (sd : ByteArray) (bytes : List UInt8) (sched : List Nat
     refine ⟨fun fuel hf => ?_, fun fuel => run_prefix sd bytes _ _ T sched fuel⟩
     obtain ⟨s', hr, _, _⟩ := run_of_trace sd bytes _ _ T sched hs fuel (by simpa using hf)
     rw [hr]; exact ⟨rfl, rfl⟩
-  · intro hno hcap
-    obtain ⟨X, e, T, he, ha⟩ := h2 hno hcap
+  · intro hno
+    obtain ⟨X, e, T, he, ha⟩ := h2 hno
     refine ⟨X, e, he, ha, fun fuel hf => ?_, fun fuel => run_prefix sd bytes _ _ T sched fuel⟩
     obtain ⟨s', hr, _, _⟩ := run_of_trace sd bytes _ _ T sched hs fuel hf
     rw [hr]; exact ⟨rfl, rfl⟩
 
 /-- **C02, the refinement theorem.** For the 122,784-byte dictionary, every byte string and every
     schedule of Read sizes: accepted by the specification ⇒ the model delivers exactly the
-    specification's output and ends with `io.EOF`; rejected (and input bits + output bytes below 2^24)
+    specification's output and ends with `io.EOF`; rejected
     ⇒ the model ends with another error and what it delivered agrees with the specification's output
     position by position; unfinished runs have delivered a prefix. -/
 theorem refines_spec (sd : ByteArray) (hsd : sd.size = 122784) (bytes : List UInt8) (sched : List Nat)
@@ -188,7 +186,7 @@ theorem refines_spec (sd : ByteArray) (hsd : sd.size = 122784) (bytes : List UIn
       (∀ fuel, (decode sd bytes).out.size + sched.length + 2 ≤ fuel →
         (run sd fuel bytes sched).1 = (decode sd bytes).out.toList ∧ (run sd fuel bytes sched).2.1 = some .eof) ∧
       (∀ fuel, (run sd fuel bytes sched).1 <+: (decode sd bytes).out.toList)) ∧
-    ((∀ n, (decode sd bytes).verdict ≠ .ok n) → 8 * bytes.length + (decode sd bytes).out.size < 2 ^ 24 →
+    ((∀ n, (decode sd bytes).verdict ≠ .ok n) →
       ∃ X e, e ≠ .eof ∧ Agree X (decode sd bytes).out.toList ∧
         (∀ fuel, X.length + sched.length + 2 ≤ fuel →
           (run sd fuel bytes sched).1 = X ∧ (run sd fuel bytes sched).2.1 = some e) ∧
@@ -202,7 +200,7 @@ def UncompressedOnly (bytes : List UInt8) : Prop :=
 
 theorem trace_uncompressed (sd : ByteArray) (bytes : List UInt8) (hU : UncompressedOnly bytes) :
     (∀ n, (decode sd bytes).verdict = .ok n → Trace sd (init bytes) (decode sd bytes).out.toList .eof) ∧
-    ((∀ n, (decode sd bytes).verdict ≠ .ok n) → 8 * bytes.length + (decode sd bytes).out.size < 2 ^ 24 →
+    ((∀ n, (decode sd bytes).verdict ≠ .ok n) →
       ∃ X e, Trace sd (init bytes) X e ∧ e ≠ .eof ∧ Agree X (decode sd bytes).out.toList) := by
   have hs := stream_sim_uncompressed sd winBitsSim bytes hU
   unfold decode decodeBits
@@ -210,12 +208,12 @@ theorem trace_uncompressed (sd : ByteArray) (bytes : List UInt8) (hU : Uncompres
   · rw [hr] at hs
     cases e with
     | corrupt =>
-      refine ⟨fun n h => (by cases h), fun _ hcap => ?_⟩
-      obtain ⟨X, e, T, he, ha⟩ := hs hcap
+      refine ⟨fun n h => (by cases h), fun _ => ?_⟩
+      obtain ⟨X, e, T, he, ha⟩ := hs
       exact ⟨X, e, T, he, by simpa using ha⟩
     | unexpectedEOF =>
-      refine ⟨fun n h => (by cases h), fun _ hcap => ?_⟩
-      obtain ⟨X, e, T, he, ha⟩ := hs hcap
+      refine ⟨fun n h => (by cases h), fun _ => ?_⟩
+      obtain ⟨X, e, T, he, ha⟩ := hs
       exact ⟨X, e, T, he, by simpa using ha⟩
   · rw [hr] at hs
     obtain ⟨X, T, hX⟩ := hs
@@ -231,7 +229,7 @@ theorem refines_uncompressed (sd : ByteArray) (bytes : List UInt8) (hU : Uncompr
       (∀ fuel, (decode sd bytes).out.size + sched.length + 2 ≤ fuel →
         (run sd fuel bytes sched).1 = (decode sd bytes).out.toList ∧ (run sd fuel bytes sched).2.1 = some .eof) ∧
       (∀ fuel, (run sd fuel bytes sched).1 <+: (decode sd bytes).out.toList)) ∧
-    ((∀ n, (decode sd bytes).verdict ≠ .ok n) → 8 * bytes.length + (decode sd bytes).out.size < 2 ^ 24 →
+    ((∀ n, (decode sd bytes).verdict ≠ .ok n) →
       ∃ X e, e ≠ .eof ∧ Agree X (decode sd bytes).out.toList ∧
         (∀ fuel, X.length + sched.length + 2 ≤ fuel →
           (run sd fuel bytes sched).1 = X ∧ (run sd fuel bytes sched).2.1 = some e) ∧
@@ -250,12 +248,11 @@ def RefinesSpec (sd : ByteArray) (bytes : List UInt8) (sched : List Nat) : Prop 
     (∃ e, (run sd fuel bytes sched).2.1 = some e)
 
 theorem refinesSpec_of (sd : ByteArray) (bytes : List UInt8) (sched : List Nat)
-    (hsmall : 8 * bytes.length + (decode sd bytes).out.size < 2 ^ 24)
     (h : (∀ n, (decode sd bytes).verdict = .ok n →
       (∀ fuel, (decode sd bytes).out.size + sched.length + 2 ≤ fuel →
         (run sd fuel bytes sched).1 = (decode sd bytes).out.toList ∧ (run sd fuel bytes sched).2.1 = some .eof) ∧
       (∀ fuel, (run sd fuel bytes sched).1 <+: (decode sd bytes).out.toList)) ∧
-    ((∀ n, (decode sd bytes).verdict ≠ .ok n) → 8 * bytes.length + (decode sd bytes).out.size < 2 ^ 24 →
+    ((∀ n, (decode sd bytes).verdict ≠ .ok n) →
       ∃ X e, e ≠ .eof ∧ Agree X (decode sd bytes).out.toList ∧
         (∀ fuel, X.length + sched.length + 2 ≤ fuel →
           (run sd fuel bytes sched).1 = X ∧ (run sd fuel bytes sched).2.1 = some e) ∧
@@ -269,7 +266,7 @@ theorem refinesSpec_of (sd : ByteArray) (bytes : List UInt8) (sched : List Nat)
     obtain ⟨e1, e2⟩ := ha fuel hf
     exact ⟨by rw [e1]; exact Agree.refl _, ⟨fun _ => ⟨n, hn⟩, fun _ => e2⟩, fun _ => e1, ⟨_, e2⟩⟩
   · have hno : ∀ n, (decode sd bytes).verdict ≠ .ok n := fun n hn => hok ⟨n, hn⟩
-    obtain ⟨X, e, he, hag, hrun, _⟩ := h2 hno hsmall
+    obtain ⟨X, e, he, hag, hrun, _⟩ := h2 hno
     refine ⟨X.length + sched.length + 2, fun fuel hf => ?_⟩
     obtain ⟨e1, e2⟩ := hrun fuel hf
     refine ⟨by rw [e1]; exact hag, ⟨fun h => ?_, fun h => absurd h hok⟩, fun h => ?_, ⟨_, e2⟩⟩
